@@ -77,3 +77,5 @@ def run(ctx):
         for base in CLOCK_BASES:
             sweeps.run_sweep(ctx, "c13v", [[1, 45, base]], "C13", stdin_data=data, binary=b2)
         rep.need("values", rep.counters.get("sweep_c13_cases", 0), 2 ** 32)
+    from . import c13_hist
+    c13_hist.run(ctx)
